@@ -2,7 +2,7 @@
    the two-part values whenever these are equal or at least 2^-53 apart. *)
 From Coq Require Import ZArith Reals Psatz Floats Bool.
 From Flocq Require Import Core BinarySingleNaN PrimFloat.
-From PB Require Import Proofs.TwoSumExact Model.Phase2 Proofs.Floor Proofs.DayFrac Proofs.DayFrac3 Proofs.PhaseCmp.
+From PB Require Import Proofs.TwoSumExact Model.Phase2 Proofs.Floor Proofs.DayFrac Proofs.DayFrac3 Proofs.DayFracTail Proofs.DayFracFold Proofs.PhaseCmp.
 Open Scope R_scope.
 
 Lemma eqb_R x y : fin x -> fin y -> PrimFloat.eqb x y = Req_bool (R_of x) (R_of y).
